@@ -103,7 +103,7 @@ def _vals_cfg(cfg, kind, which):
     return v
 
 
-PARTKIND = {"op": "op", "rho": "op", "ham": "op", "dmom": "dmom", "sup": "sup",
+PARTKIND = {"op": "op", "rho": "op", "ham": "op", "hamjr": "op", "dmom": "dmom", "sup": "sup",
             "lindten": "sup", "lindop": "ops3", "dme": "dme", "ctx": "op",
             "esup": "sup_t", "sup5": "sup_t", "relt5": "sup_t",
             # objects produced from an esup: apply at one time / at several times, at(time)
@@ -111,7 +111,7 @@ PARTKIND = {"op": "op", "rho": "op", "ham": "op", "dmom": "dmom", "sup": "sup",
             # reduced density matrix evolution; one-time objects returned by evolution.at(time)
             "rdme": "dme", "dme-slice": "op", "rdme-slice": "op"}
 # which deterministic array set a kind is (over)written with
-VALKIND = {"esup-applied": "op", "esup-applied-evol": "dme", "esup-slice": "sup",
+VALKIND = {"hamjr": "ham", "esup-applied": "op", "esup-applied-evol": "dme", "esup-slice": "sup",
            "rdme": "dme", "dme-slice": "rho", "rdme-slice": "rho"}
 # kinds with a method at(time) that returns an object made of one time slice -> kind of it
 SLICEOF = {"esup": "esup-slice", "dme": "dme-slice", "rdme": "rdme-slice"}
@@ -139,6 +139,15 @@ class World:
         for k in cfg.get("precreate", []):
             self.create(k)
         self.ncreated = 0
+        # an object that does not fit the context operators (2x2 among 3x3): using it inside a
+        # context is a user error that RAISES; the quantifier covers "an exception raised at any
+        # point inside a context", so everything else must go on as if nothing had happened
+        self.misfit = None
+        self.nmisfit = 0
+        if cfg.get("misfit"):
+            from quantarhei.qm import Operator
+            self.misfit0 = numpy.array([[1.0, 0.3], [0.3, -2.0]], dtype=complex)
+            self.misfit = Operator(data=self.misfit0.copy())
 
     # -- helpers -----------------------------------------------------
     def v(self, key, what, det=None):
@@ -211,6 +220,19 @@ class World:
             o = qr.ReducedDensityMatrix(data=vals["_data"].copy())
         elif kind == "ham":
             o = qr.Hamiltonian(data=vals["_data"].copy())
+        elif kind == "hamjr":
+            # Hamiltonian with a split-off remainder coupling JR (coupling cut-off): JR is part of
+            # the operator and is presented in the same basis as the data
+            class _HamJR(qr.Hamiltonian):
+                @property
+                def _JR(self):
+                    return self.JR
+            o = _HamJR(data=vals["_data"].copy())
+            o.remove_cutoff_coupling(0.25)
+            vals = {"_data": numpy.array(o._data, dtype=complex, copy=True),
+                    "_JR": numpy.array(o.JR, dtype=complex, copy=True)}
+            if not numpy.any(vals["_JR"]):
+                raise isolation.HarnessError("no remainder coupling split off")
         elif kind == "dmom":
             from quantarhei.qm import TransitionDipoleMoment
             o = TransitionDipoleMoment(data=vals["_data"].copy())
@@ -532,6 +554,30 @@ class World:
                 if not ok:
                     self.v(self.okey(rec, "restoration/object-public-read/%s" % rec["kind"]),
                            "%s.%s read outside differs by %g" % (lab, a[1:], err))
+        if self.misfit is not None:
+            o = self.misfit
+            if o.get_current_basis() != 0:
+                self.v("restoration/object-basis-tag/after-failed-access",
+                       "an object whose use inside the context raised is tagged with basis %r "
+                       "after all contexts were left" % o.get_current_basis())
+            else:
+                try:
+                    ok, err = self._cmp(o.data, self.misfit0)
+                except Exception as e:
+                    ok, err = False, float("inf")
+                if not ok:
+                    self.v("restoration/object-data/after-failed-access",
+                           "an object whose use inside the context raised differs from its "
+                           "original representation by %g afterwards" % err)
+
+    def read_misfit(self):
+        self.nmisfit += 1
+        try:
+            self.misfit.data
+        except isolation.HarnessError:
+            raise
+        except Exception:
+            pass                       # the user catches the error inside the context
 
     # -- enumeration support -------------------------------------------------
     def enabled(self):
@@ -557,6 +603,8 @@ class World:
                 ops.append(["exit_exc"])
         if d > 0 and not any_prot and self.nexc < cfg["nexc"]:
             ops.append(["raise_all"])
+        if self.misfit is not None and d > 0 and self.nmisfit < 1:
+            ops.append(["read_misfit"])
         if self.ncreated < cfg["nobj"]:
             for k in cfg["kinds"]:
                 ops.append(["create", k])
@@ -613,8 +661,13 @@ class World:
             objs.append([lab, tag, rec["prot"], reg, cons, rec["alias"],
                          [numpy.round(rec["H"][a], 6).tobytes().hex()[:40] + str(hash(
                              numpy.round(rec["H"][a], 6).tobytes())) for a in self.attrs(lab)]])
+        mf = None
+        if self.misfit is not None:
+            o = self.misfit
+            mf = [self.nmisfit, o.get_current_basis(),
+                  sorted(k for k, v in m.basis_registered.items() if any(x is o for x in v))]
         return [[l["name"] for l in self.levels], list(m.basis_stack), objs,
-                self.nexc, self.ncreated, self.napply, self.nat]
+                self.nexc, self.ncreated, self.napply, self.nat, mf]
 
 
 CFG = {}
@@ -639,18 +692,19 @@ def execute(hist):
 
 execute.cfg = None
 
-ALL_KINDS = ["op", "rho", "ham", "dmom", "sup", "lindop", "lindten", "dme"] + list(SUP_T)
+ALL_KINDS = ["op", "rho", "ham", "hamjr", "dmom", "sup", "lindop", "lindten", "dme"] + list(SUP_T)
 
 
 def sections(tier):
     secs = []
     if tier == "quick":
         for k in ALL_KINDS:
-            # sup5 goes through the same transform code as esup: one level less in this tier
+            # sup5 goes through the same transform code as esup, ham is covered by hamjr: one
+            # level less in this tier
             secs.append(("kind-" + k, {"ctx": ["A", "B"], "kinds": [k], "nobj": 1, "nest": 2,
-                                       "nexc": 1, "protect": True}, 4 if k == "sup5" else 5))
+                                       "nexc": 1, "protect": True}, 4 if k in ("sup5", "ham") else 5))
         secs.append(("mixed", {"ctx": ["A", "C"], "kinds": ["op", "sup", "rho"], "nobj": 2,
-                               "nest": 2, "nexc": 1, "protect": False}, 4))
+                               "nest": 2, "nexc": 1, "protect": False, "misfit": True}, 4))
         secs.append(("apply-lindop", {"ctx": ["A", "B"], "kinds": [], "nobj": 0, "nest": 2,
                                       "nexc": 0, "protect": False,
                                       "precreate": ["rho", "lindop"]}, 5))
@@ -681,7 +735,9 @@ def sections(tier):
             secs.append(("kind-" + k, {"ctx": ["A", "B", "C"], "kinds": [k], "nobj": 2,
                                        "nest": 3, "nexc": 2, "protect": True}, 6))
         secs.append(("mixed", {"ctx": ["A", "B", "C"], "kinds": ["op", "ham", "sup", "rho", "dme"],
-                               "nobj": 3, "nest": 3, "nexc": 2, "protect": True}, 6))
+                               "nobj": 3, "nest": 3, "nexc": 2, "protect": True, "misfit": True}, 6))
+        secs.append(("failed-access", {"ctx": ["A", "B"], "kinds": ["op", "sup"], "nobj": 2,
+                                       "nest": 3, "nexc": 1, "protect": False, "misfit": True}, 6))
         secs.append(("apply-sup", {"ctx": ["A", "B", "C"], "kinds": [], "nobj": 0, "nest": 3,
                                    "nexc": 2, "protect": True, "precreate": ["op", "sup"]}, 7))
         secs.append(("apply-lindop", {"ctx": ["A", "B", "C"], "kinds": [], "nobj": 0, "nest": 3,
